@@ -440,10 +440,13 @@ def run(rep, tier):
     kinds = {}        # case index -> {step: fault kind}
     not_faithful = set()   # programs showing the listed _constants defect, which the model (MRO based) does not have
 
-    def reporter(prog):
+    def reporter(prog, ns=None):
         src = D.program_src(prog)
 
         def report(key, what, data):
+            cls = (ns or {}).get(data.get("class"))
+            if key.startswith("C14/inherited") and cls is not None and data.get("field") and L.const_shadowed(cls, data["field"]):
+                key = L.K_CONST_SHADOW          # a consequence of that listed defect: same root cause, same key
             findings.append((key, what, dict(data, python=src, program=prog)))
             if key == L.K_CONST_SHADOW:
                 not_faithful.add(id(prog))
@@ -455,8 +458,8 @@ def run(rep, tier):
         guards = (True, True) if i % 5 else (rnd.random() < 0.5, rnd.random() < 0.5)
         prog, outs, ns = run_steps(steps, guards)
         fm = D.field_ast_map(prog, ns)
-        n = inherited_clauses(rnd, prog, ns, fm, rep, reporter(prog), n_vals)
-        n += L.mro_clauses(prog, ns, reporter(prog), base_values(rnd, prog, ns, fm))
+        n = inherited_clauses(rnd, prog, ns, fm, rep, reporter(prog, ns), n_vals)
+        n += L.mro_clauses(prog, ns, reporter(prog, ns), base_values(rnd, prog, ns, fm))
         for st, o in zip(prog, outs):
             if st[0] == "def":
                 rep.count("hierarchy", 1, (len(st[1]["bases"]), len(st[1]["members"]), st[1]["required"] is not None,
@@ -470,8 +473,8 @@ def run(rep, tier):
     for shape, sub, okinds, rd, steps in L.shape_programs(tier, core.seed()):
         prog, outs, ns = run_steps(steps, (True, True))
         fm = D.field_ast_map(prog, ns)
-        n = inherited_clauses(rnd, prog, ns, fm, rep, reporter(prog), n_vals)
-        n += L.mro_clauses(prog, ns, reporter(prog), base_values(rnd, prog, ns, fm))
+        n = inherited_clauses(rnd, prog, ns, fm, rep, reporter(prog, ns), n_vals)
+        n += L.mro_clauses(prog, ns, reporter(prog, ns), base_values(rnd, prog, ns, fm))
         last = outs[-1]
         rep.count("shape-lattice", 1, (shape, tuple(sub), tuple(sorted(set(okinds.values()))), rd,
                                        last[0] if last[0] != "raise" else last[1]))
